@@ -472,7 +472,43 @@ def proof_step(ctx):
                 if not any(al in nme for al in allowed):
                     ctx.proof_ok = False
                     ctx.proof_log = "theorem depends on an axiom that is not a standard-library axiom: " + nme
+    if ctx.proof_ok and ctx.tier == "thorough":
+        coqchk_step(ctx)
     return ctx.proof_ok
+
+
+def coqchk_step(ctx):
+    """thorough tier: the independent checker re-checks the compiled property file and everything it depends on and lists
+    the axioms of that closure; it must accept, with no axiom outside the standard library's and nothing assumed about
+    guards / positivity / universes"""
+    t0 = time.time()
+    import fcntl
+    with open(os.path.join(WORK, "coq.lock"), "w") as lk:
+        fcntl.flock(lk, fcntl.LOCK_SH)
+        rc, out, _ = sh(["coqchk", "-silent", "-o", "-Q", ".", "OC", "OC.Properties.%s" % ctx.prop], cwd=COQ, timeout=5400)
+    summary = out[out.find("CONTEXT SUMMARY"):] if "CONTEXT SUMMARY" in out else out[-1500:]
+
+    def section(title):
+        m = re.search(r"\* " + re.escape(title) + r":(.*?)(?=\n\s*\n\* |\Z)", summary, re.S)
+        if not m:
+            return None
+        txt = " ".join(m.group(1).split())
+        return [] if txt in ("<none>", "") else [x for x in re.split(r"\s+", txt) if x]
+    axioms = section("Axioms")
+    tit = section("Constants/Inductives relying on type-in-type")
+    unsafe = section("Constants/Inductives relying on unsafe (co)fixpoints")
+    pos = section("Inductives whose positivity is assumed")
+    allowed = ("functional_extensionality", "proof_irrelevance", "classic", "JMeq_eq", "Eq_rect_eq", "eq_rect_eq",
+               "propositional_extensionality", "constructive_definite_description", "constructive_indefinite_description")
+    foreign = [a for a in (axioms or []) if not any(al in a for al in allowed)]
+    ok = rc == 0 and axioms is not None and not foreign and not tit and not unsafe and not pos
+    ctx.coverage["coqchk"] = {"cmd": "coqchk -silent -o -Q coq OC OC.Properties.%s" % ctx.prop, "accepted": rc == 0,
+                              "axioms_of_closure": axioms, "type_in_type": tit, "unsafe_fixpoints": unsafe,
+                              "assumed_positivity": pos, "wall_s": round(time.time() - t0, 1)}
+    if not ok:
+        ctx.proof_ok = False
+        ctx.proof_log = "coqchk does not accept the compiled closure of Properties/%s.v (rc=%s, foreign axioms %s):\n%s" % (
+            ctx.prop, rc, foreign, summary[-1500:])
 
 
 def run_pipeline(ctx, harness_exe, harness_args, mcheck_exe, timeout=3000, env=None, keep_lines=None):
